@@ -5,6 +5,7 @@ namespace Tmv.Drv.C05
 open Tmv Tmv.Pipeline
 
 structure St where
+  retainK : Option Nat := none
   ih : Nat := 1
   blocks : List (List Tx) := []
   sys : Sys := {}
@@ -12,8 +13,14 @@ structure St where
   ver : MempoolLock.Ver := .v0
   ms : Option MempoolLock.MS := none
 
-def chainOf (ih : Nat) (bs : List (List Tx)) : Chain :=
-  { ihPred := ih - 1, txs := fun h => if h < ih then [] else bs.getD (h - ih) [] }
+/-- `retain=K`: the application answers RetainHeight = height + 1 - K to every Commit (K = 0: one
+beyond the block just committed, which PruneBlocks refuses; K = 1: that block itself; …) -/
+def retainOf (k : Option Nat) : Nat → Nat := fun h => match k with
+  | some k => h + 1 - k
+  | none => 0
+
+def chainOf (ih : Nat) (bs : List (List Tx)) (rk : Option Nat := none) : Chain :=
+  { ihPred := ih - 1, txs := fun h => if h < ih then [] else bs.getD (h - ih) [], retain := retainOf rk }
 
 def parseBlock (s : String) : Option (List Tx) :=
   if s = "e" then some [] else (s.splitOn ".").mapM String.toNat?
@@ -41,17 +48,18 @@ def showOutcome : Outcome → String
   | .panicHashBlock => "panic-hash-block"
   | .panicHashState => "panic-hash-state"
   | .panicUncovered => "panic-uncovered"
+  | .panicValsPruned => "panic-validators-pruned"
 
 def b01 (b : Bool) : String := if b then "1" else "0"
 
 def line (st : St) (hd : String) (s : Sys) : St × String :=
   let d := s.disk
-  let c := chainOf st.ih st.blocks
+  let c := chainOf st.ih st.blocks st.retainK
   let delta := d.app.journal.drop st.seen
   let j := if delta.isEmpty then "-" else ",".intercalate (delta.map showCall)
   let resp := match d.lastResp with | some h => toString h | none => "-"
   ({ st with sys := s, seen := d.app.journal.length },
-   s!"{hd} app={d.app.height} store={d.storeH} state={d.stateH} resp={resp} wal={d.walEnd} " ++
+   s!"{hd} app={d.app.height} store={d.storeH} base={d.storeBase} state={d.stateH} resp={resp} wal={d.walEnd} " ++
    s!"pv={d.pvH} heq={b01 (d.app.hash == d.stateHash)} sc={b01 (d.stateHash == hist c d.stateH)} up={b01 s.up} live={b01 s.live} j={j}")
 
 /-! mempool part -/
@@ -73,7 +81,7 @@ def gateNames (s : MS) : List String :=
 
 open MempoolLock in
 def mpLine (v : Ver) (s : MS) : String :=
-  if v = .v0a then
+  if v = .v0a ∨ v = .v1a then
     -- asynchronous connection: the commit request is at the gate, the unanswered mempool requests
     -- are listed in connection (FIFO) order
     let g := match s.cpc with | .commitGate => "commit" | _ => "-"
@@ -101,7 +109,7 @@ def parseRel (w : String) : Option Ev :=
   | _ => none
 
 def step (st : St) (toks : List String) : St × String :=
-  let c := chainOf st.ih st.blocks
+  let c := chainOf st.ih st.blocks st.retainK
   match toks with
   | "chain" :: rest =>
     match (kv rest "n").bind String.toNat?, (kv rest "txs").bind (fun s => (splitComma s).mapM parseBlock),
@@ -110,7 +118,13 @@ def step (st : St) (toks : List String) : St × String :=
       let dis := (kv rest "discard").getD "0"
       -- discard=1: storage.discard_abci_responses; the last responses record is written regardless
       -- (state/store.go SaveABCIResponses), which is all the pipeline reads: same model
-      if bs.length = n ∧ 1 ≤ ih ∧ ih ≤ 1000 ∧ (dis = "0" ∨ dis = "1") then ({ ih := ih, blocks := bs }, "ok") else (st, "bad-op")
+      let rk : Option (Option Nat) := match kv rest "retain" with
+        | some s => (s.toNat?).bind fun x => if x ≤ 100 then some (some x) else none
+        | none => some none
+      match rk with
+      | none => (st, "bad-op")
+      | some rk =>
+      if bs.length = n ∧ 1 ≤ ih ∧ ih ≤ 1000 ∧ (dis = "0" ∨ dis = "1") then ({ ih := ih, blocks := bs, retainK := rk }, "ok") else (st, "bad-op")
     | _, _, _ => (st, "bad-op")
   | "start" :: rest =>
     match (kv rest "crash").bind parseCrash with
@@ -154,7 +168,7 @@ def step (st : St) (toks : List String) : St × String :=
   | ["saveblock"] =>
     if nxt c st.sys.disk.storeH ≥ st.ih + st.blocks.length then line st "saveblock out=no-block" st.sys
     else line st "saveblock out=ok"
-      { disk := { (crash st.sys.disk) with storeH := nxt c st.sys.disk.storeH }, up := false, live := false }
+      { disk := applyEff (crash st.sys.disk) (.saveBlock (nxt c st.sys.disk.storeH)), up := false, live := false }
   | ["check"] =>
     let r := jrun c ⟨0, none⟩ st.sys.disk.app.journal
     (st, match r with
@@ -175,7 +189,7 @@ def step (st : St) (toks : List String) : St × String :=
       -- about heights and calls (responses per height, empty blocks, pruning below RetainHeight)
       if !(optOk "discard" && optOk "noempty" && optOk "retain") then (st, "bad-op") else
       if n < 1 ∨ n > 8 ∨ ih < 1 ∨ ih > 1000 ∨ (v ≠ "v0" ∧ v ≠ "v1") ∨ !okList fl true ∨ !okList tx false then (st, "bad-op") else
-      let c0 : Chain := { ihPred := ih - 1, txs := fun _ => [] }
+      let c0 : Chain := { ihPred := ih - 1, txs := fun _ => [], retain := retainOf ((kv rest "retain").bind String.toNat?) }
       let exitH := ih + n
       let fails : List (Option Nat) := (splitComma fl).map fun t => t.toNat?
       let tri (x : Disk) : String := s!"{x.app.height}/{x.storeH}/{x.stateH}"
@@ -203,8 +217,9 @@ def step (st : St) (toks : List String) : St × String :=
     match kv rest "ver", (kv rest "pool").bind String.toNat? with
     | some v, some p =>
       let conn := (kv rest "conn").getD "sync"
-      if (v = "v0" ∨ v = "v1") ∧ (conn = "sync" ∨ (conn = "async" ∧ v = "v0")) then
-        let ver := if conn = "async" then MempoolLock.Ver.v0a else if v = "v0" then MempoolLock.Ver.v0 else .v1
+      if (v = "v0" ∨ v = "v1") ∧ (conn = "sync" ∨ conn = "async") then
+        let ver := if conn = "async" then (if v = "v0" then MempoolLock.Ver.v0a else .v1a)
+          else if v = "v0" then MempoolLock.Ver.v0 else .v1
         let s : MempoolLock.MS := { pool := p }
         ({ st with ver := ver, ms := some s }, mpLine ver s)
       else (st, "bad-op")
@@ -220,7 +235,7 @@ def step (st : St) (toks : List String) : St × String :=
   | "rel" :: rest =>
     match st.ms, (kv rest "what").bind parseRel with
     | some s, some e =>
-      if st.ver = .v0a ∧ e = .relFlush then (st, "not-enabled") else mpEv st s e
+      if (st.ver = .v0a ∨ st.ver = .v1a) ∧ e = .relFlush then (st, "not-enabled") else mpEv st s e
     | _, _ => (st, "bad-op")
   | _ => (st, "bad-op")
 
